@@ -50,6 +50,26 @@ static void variant(Wd::sbx& sb, const char* name, uint64_t off, F&& load, int64
       report(name, "delivered-value-never-held-by-the-cell",
              mon::fmt("the cell held %lld, then %lld (written immediately before access %d of %d): the application received %lld without an abort", (long long)A, (long long)B, k, N, got));
     }
+  // the roles swapped: the cell first holds a value the application type cannot represent and is rewritten to a small one
+  // between two reads - a check made on the second read must not vouch for a value taken from the first
+  const int64_t Bigs[] = { (int64_t(1) << 32) + 7, static_cast<int64_t>(0xFFFFFFFFFFFFFFF7ull), (int64_t(1) << 40) + 3 };
+  for (int k = 1; k < N; k++)
+    for (int64_t Big : Bigs) {
+      if (Big >= lo && Big <= hi) continue;
+      memcpy(reinterpret_cast<void*>(addr), &Big, 8);
+      Adv adv{ addr, 6 };
+      long long got = 0;
+      mon::ctx("%s | cell holds %lld (not representable) and is rewritten to 6 before access %d of %d", name, (long long)Big, k, N);
+      trap::arm(k, adversary, &adv);
+      bool ab = mon::aborts([&] { got = load(); });
+      trap::disarm();
+      mon::evals();
+      n_interleavings++;
+      if (ab) { n_abort++; continue; }
+      if (got == 6) { n_ok++; continue; }
+      report(name, "delivered-value-never-held-by-the-cell",
+             mon::fmt("the cell held %lld, then 6 (written immediately before access %d of %d): the application received %lld without an abort", (long long)Big, k, N, got));
+    }
 }
 
 int main(int argc, char** argv)
